@@ -307,7 +307,13 @@ func (ip *Inode) Read(atxn *alloctxn.AllocTxn, offset uint64, bytesToRead uint64
 			ip.WriteInode(atxn)
 		}
 		if blkno == common.NULLBNUM {
-			break
+			// a hole for which no block can be allocated still reads as zeros
+			for b := uint64(0); b < nbytes; b++ {
+				data = append(data, 0)
+			}
+			n += nbytes
+			off += nbytes
+			continue
 		}
 		buf := atxn.ReadBlock(blkno)
 
